@@ -1,18 +1,29 @@
 """C19 -- neural bandits keep an exact inverse of their regularised Gram matrix.
 
 M1  Bandit_MC(q).cfg   exact rational kernel: every sequence of <= 4 decisions (sizes 1, 2: contexts in
-                       {-1,0,1,2}; size 3: {-1,0,1}), lambda in {1/2, 1, 2}, interleaved with learn / mutate:
+                       {-1,0,1,2}; size 3: {-1,0,1}), lambda in {1/2, 1, 3/2} (thorough: + 2),
+                       interleaved with learn / test / mutate:
                        GramDef, IsInverse (S G = I exactly), Symmetric, PosDef, BonusNonNeg, DimFollowsLayer
-    Bandit_MCp.cfg     protocol: 2 agents + 1 checkpoint, all operations incl. clone / save / load with both
-                       allowed outcomes (carry | reinit): same invariants + Ownership, InitScale
-M3  exact mode         real NeuralUCB / NeuralTS with a linear actor (LinFeat, without / with bias): scripts of
-                       decisions, learn steps, architecture / parameter / activation / hyper-parameter / no
-                       mutations (real Mutations object), clones and checkpoint round trips; after every
+    Bandit_MCp(q).cfg  protocol: 2 agents + 1 checkpoint, all operations incl. clone / save / load with both
+                       allowed outcomes (carry | reinit): same invariants + Ownership, InitScale, LamStable
+    Bandit_MCh.cfg     (thorough) the same protocol with heterogeneous lambdas: every agent / checkpoint has its own,
+                       hyper-parameter mutations move it; a carried matrix requires an unchanged lambda
+M3  exact mode         real NeuralUCB / NeuralTS with a linear actor (LinFeat, without / with bias, 1-3 context
+                       coordinates, 1-4 arms): scripts of decisions (masks: none / int / bool / float / column
+                       ndarray, all ones, one legal arm, the best arm forbidden; training / evaluation mode),
+                       learn steps, evaluation runs (agent.test), architecture (sampled and every method forced) /
+                       parameter / activation / hyper-parameter / no mutations through Mutations.mutation (also
+                       pre_training_mut) and the public methods called directly, clones (of clones, right after a
+                       mutation) and checkpoint round trips (also between agents with different lambdas); and
+                       runs of the real train_bandits loop (tournament selection + population mutation +
+                       checkpoints) whose operations are recorded by driver-side wrappers.  After every
                        operation every agent's sigma_inv is compared by TLC with the exact rational matrix
                        (1e-5) and its size with the output layer of the real network   -> Bandit_Trace
-    inexact mode       the same scripts on agents with a real MLP actor / the default ValueNetwork; the driver
-                       evaluates the residual |S (lambda I + sum g g^T) - I| over the decisions that TLC confirms
-                       to be the ones since the last initialisation                    -> Banditx_Trace
+    inexact mode       the same scripts on agents with real networks: EvolvableMLP / ValueNetwork passed as
+                       actor_network, net_config None / custom head + encoder / deepest / SimBa, image (float,
+                       uint8, normalize_images), dict, tuple, discrete contexts; the driver evaluates the residual
+                       |S (lambda I + sum g g^T) - I| over the decisions that TLC confirms to be the ones since
+                       the last initialisation                                          -> Banditx_Trace
 """
 from __future__ import annotations
 
@@ -24,8 +35,8 @@ from ..core import Vacuous
 
 EXACT_CFG = """SPECIFICATION TSpec
 CONSTANTS
-  NSlots = 3
-  NFiles = 2
+  NSlots = 12
+  NFiles = 4
   MaxDim = 3
   Lams = {}
   ValsLo <- TVals
@@ -34,6 +45,7 @@ CONSTANTS
   MaxDec = 100
   MaxDecHi = 100
   MaxOps = 1000000
+  Hetero = FALSE
   Tol = 12
   Diag = @DIAG@
 INVARIANT GramDef
@@ -42,19 +54,27 @@ INVARIANT Symmetric
 INVARIANT PosDef
 INVARIANT DimFollowsLayer
 INVARIANT LowestTerms
+INVARIANT LamPositive
 CHECK_DEADLOCK FALSE
 """
 FLOAT_CFG = """SPECIFICATION TSpec
 CONSTANTS
-  NSlots = 3
-  NFiles = 2
+  NSlots = 12
+  NFiles = 4
   Diag = @DIAG@
 INVARIANT DimFollowsLayer
 CHECK_DEADLOCK FALSE
 """
 
 LAMS = [0.5, 1.0, 2.0]
+# lambda: below / equal / above 1, powers of two and not, int-typed; 0.3 and 7.5 only where the matrices are floats anyway
+# (exact mode: denominators <= 2, else the 3 x 3 minors of TLC's 32-bit rationals overflow after a handful of decisions)
+LAMS_EXACT = [0.5, 1.0, 2.0, 3.0, 1.5, 2.5, 3, 2]
+LAMS_FLOAT = LAMS_EXACT + [0.75, 0.25, 0.3, 7.5]
+GAMMAS = [0.5, 1.0, 2.0, 1, 3, 0.3]
 KINDS = ["arch", "arch", "arch", "param", "param", "act", "hp", "none"]
+FLOAT_FAMILIES = ["mlp", "default", "vnet", "plain", "custom", "deep", "simba", "image", "dict", "tuple", "discrete"]
+BOX = ("lin", "linb", "mlp", "vnet", "default", "plain", "custom", "deep", "simba", "image")
 
 # every operation once, on both algorithms / actors / lambdas
 SYS = [("create", 1, 2), ("decide", 1, 1, None), ("decide", 1, 2, None), ("learn", 1, 0), ("decide", 1, 3, [1, 0, 1]),
@@ -64,34 +84,91 @@ SYS = [("create", 1, 2), ("decide", 1, 1, None), ("decide", 1, 2, None), ("learn
        ("decide", 2, 10, [0, 1, 1])]
 
 
-def gen_script(rng, actor, length, max_dec, arms):
+def sys2(box: bool, lamb2):
+    """The interleavings and argument variants SYS does not have: clone right after a mutation, clone of a clone, evaluation runs,
+    evaluation mode, every mask variant, forced / direct / pre-training mutations, a checkpoint of an agent with another lambda."""
+    t = (lambda s, n: [("test", s, n)]) if box else (lambda s, n: [])
+    return ([("create", 1, 2), ("decide", 1, 1, "ones", "float"), ("mutate", 1, "arch"), ("clone", 1, 2), ("decide", 2, 2, None), ("decide", 1, 3, "notop", "bool"),
+             ("clone", 2, 3, "none"), ("decide", 3, 4, "notop", "int"), ("decide", 2, 5, "single", "col")] + t(1, 2) +
+            [("decide", 1, 6, None, None, False), ("mutate", 3, "arch#0", "direct"), ("decide", 3, 7, None), ("clone", 3, 1), ("decide", 1, 8, "notop", "float"),
+             ("save", 3, 1), ("mutate", 3, "hp", "pre"), ("decide", 3, 9, None, None, True), ("mutate", 2, "act", "direct"), ("decide", 2, 10, None),
+             ("decide", 2, 11, [1, 1, 0], "bool"), ("mutate", 2, "param", "direct"), ("decide", 2, 12, None), ("create", 4, 1, lamb2), ("decide", 4, 13, None),
+             ("save", 4, 2), ("loadinto", 2, 3), ("decide", 3, 14, None), ("loadinto", 1, 4), ("decide", 4, 15, None), ("mutate", 4, "none", "pre"),
+             ("decide", 4, 16, None), ("mutate", 3, "arch#3"), ("clone", 3, 2), ("decide", 2, 17, None), ("decide", 3, 18, None)] + t(3, 1) +
+            [("decide", 3, 19, None), ("loadnew", 2, 5), ("mutate", 5, "archl"), ("decide", 5, 20, None)])
+
+
+HEAD = ["head_net.add_node", "head_net.remove_node", "head_net.add_layer", "head_net.remove_layer", "add_latent_node", "remove_latent_node"]
+MLP_ENC = ["encoder.add_node", "encoder.remove_node", "encoder.add_layer", "encoder.remove_layer"]
+METHODS = {"default": HEAD + MLP_ENC, "deep": HEAD + MLP_ENC, "custom": HEAD + MLP_ENC, "vnet": HEAD + MLP_ENC, "plain": HEAD + MLP_ENC,
+           "simba": HEAD + ["encoder.add_block", "encoder.remove_block", "encoder.add_node", "encoder.remove_node"],
+           "image": HEAD + ["encoder.add_channel", "encoder.remove_channel", "encoder.change_kernel", "encoder.add_layer", "encoder.remove_layer"],
+           "dict": HEAD + ["encoder.add_latent_node", "encoder.remove_latent_node"], "tuple": HEAD + ["encoder.add_latent_node", "encoder.remove_latent_node"],
+           "discrete": HEAD + MLP_ENC, "mlp": ["add_node", "remove_node", "add_layer", "remove_layer"], "lin": ["add_node", "remove_node"],
+           "linb": ["add_node", "remove_node"]}
+
+
+def archall(actor: str, rot: int = 0):
+    """Every architecture method of this kind of actor, forced in turn (a method the network does not offer at that moment is
+    replaced by another one), each followed by a decision; every other one is followed by a clone that decides too."""
+    ops = [("create", 1, 2), ("decide", 1, 1, None)]
+    names = METHODS[actor]
+    for i in range(len(names)):
+        ops.append(("mutate", 1, "arch@" + names[(i + rot) % len(names)], "pop" if i % 3 else "direct"))
+        ops.append(("decide", 1, 100 + i, None))
+        if i % 2 == 0:
+            ops += [("clone", 1, 2), ("decide", 2, 200 + i, None)]
+    return ops
+
+
+def gen_script(rng, actor, length, max_dec, arms, hetero=None, lam_hp=False):
     """Random operation script. max_dec bounds the decisions of the whole script (exact mode: keeps every
     intermediate of TLC's rational arithmetic below 2^31 whatever the code carries or re-initialises)."""
     k0 = rng.randint(1, 3) if actor == "lin" else rng.randint(1, 2)
     ops = [("create", 1, k0)]
     live, files, ndec = {1}, set(), 0
+    if hetero is not None:
+        ops.append(("create", 2, rng.randint(1, 2), hetero))
+        live.add(2)
+    box = actor in BOX
     while len(ops) < length:
         x = rng.random()
         a = rng.choice(sorted(live))
-        if x < 0.42:
+        if x < 0.40:
             if ndec >= max_dec:
                 continue
-            mask = None
-            if rng.random() < 0.25:
+            mask, var, train = None, None, None
+            y = rng.random()
+            if y < 0.2:
                 mask = [rng.randint(0, 1) for _ in range(arms)]
                 if not any(mask):
                     mask[rng.randrange(arms)] = 1
-            ops.append(("decide", a, rng.randrange(10 ** 6), mask))
+            elif y < 0.4:
+                mask = rng.choice(["notop", "notop", "ones", "single"])
+            if mask is not None:
+                var = rng.choice(["int", "bool", "float", "col"])
+            if rng.random() < 0.15:
+                train = rng.random() < 0.5
+            ops.append(("decide", a, rng.randrange(10 ** 6), mask, var, train))
             ndec += 1
-        elif x < 0.50:
+        elif x < 0.47:
             ops.append(("learn", a, rng.randrange(50)))
-        elif x < 0.68:
-            ops.append(("mutate", a, rng.choice(KINDS)))
-        elif x < 0.78:
+        elif x < 0.51:
+            if box:
+                ops.append(("test", a, rng.randint(1, 3)))
+        elif x < 0.69:
+            kind = rng.choice(KINDS)
+            if kind == "arch" and rng.random() < 0.5:
+                kind = rng.choice(["archl", f"arch#{rng.randrange(12)}"])
+            via = rng.choice(["pop", "pop", "pre", "direct"])
+            if via == "direct" and kind == "hp" and lam_hp:
+                via = "pop"             # a lambda moved by the bare rl_hyperparam_mutation (no mutation hook) is outside the protocol
+            ops.append(("mutate", a, kind, via))
+        elif x < 0.79:
             c = rng.choice([s for s in (1, 2, 3) if s != a])
-            ops.append(("clone", a, c))
+            ops.append(("clone", a, c, rng.choice(["given", "none"])))
             live.add(c)
-        elif x < 0.86:
+        elif x < 0.87:
             f = rng.choice([1, 2])
             ops.append(("save", a, f))
             files.add(f)
@@ -107,6 +184,18 @@ def gen_script(rng, actor, length, max_dec, arms):
     for s in sorted(live):
         ops.append(("decide", s, rng.randrange(10 ** 6), None))
     return ops
+
+
+PROBS = [[0.2, 0.2, 0.2, 0.2, 0.2], [0, 0.4, 0.2, 0.2, 0.2], [0.5, 0.5, 0, 0, 0], [0.25, 0, 0.25, 0.25, 0.25]]
+
+
+def train_params(rng, j: int):
+    """Parameters of one train_bandits run; the flags rotate with the job number so that every tier sees every value."""
+    pop = [2, 2, 3][j % 3]
+    return {"pop": pop, "k": rng.randint(1, 2), "gens": [1, 2][(j // 2) % 2] if pop == 2 else 1, "episode_steps": rng.choice([2, 3]),
+            "eval_steps": rng.randint(1, 2), "eval_loop": [1, 2][(j // 3) % 2], "tsize": rng.choice([1, 2]), "elitism": j % 4 != 3,
+            "mutate_elite": j % 2 == 0, "checkpoint": (j // 2) % 2 == 0, "probs": PROBS[j % 4],
+            "create": ["single", "create_population"][(j // 2 + j // 4) % 2], "save_elite": j % 5 == 0}
 
 
 def sig(kind):
@@ -127,72 +216,174 @@ def sig(kind):
 
 def what(t, v):
     cfg = t["cfg"]
-    return (f"[{cfg.get('kind', '')} mode] {cfg['algo']} (actor {cfg['actor']}, lamb={cfg['lamb']}, gamma={cfg['gamma']}, mode {cfg['mode']}, spec lambda {cfg['lam'][0]}/{cfg['lam'][1]}): "
-            f"trace rejected at event {v.step}: {v.clauses or v.invariant}; script={cfg['ops'][:700]}; event={str(v.event)[:900]}")
+    return (f"[{cfg.get('kind', '')} mode] {cfg['algo']} (actor {cfg['actor']}, lamb={cfg['lamb']}, gamma={cfg['gamma']}, arms={cfg.get('arms')}, opts={cfg.get('opts')}, "
+            f"mode {cfg['mode']}, spec lambda {cfg['lam'][0]}/{cfg['lam'][1]}): "
+            f"trace rejected at event {v.step}: {v.clauses or v.invariant}; script={cfg['ops'][:900]}; event={str(v.event)[:900]}")
+
+
+def float_opts(rng, actor, arms):
+    o = {}
+    if actor in ("mlp", "vnet", "plain", "custom", "simba"):
+        o["nobs"] = rng.choice([1, 4, 7])
+    if actor == "image":          # (uint8, normalised) first: the systematic scripts come first
+        float_opts.n = getattr(float_opts, "n", 0) + 1
+        o["uint8"], o["normalize_images"] = [(True, True), (False, True), (True, False), (False, False)][(float_opts.n - 1) % 4]
+    return o
+
+
+def common_opts(rng):
+    o = {}
+    if rng.random() < 0.5:
+        o.update({"reg": rng.choice([0.000625, 0.1]), "batch_size": rng.choice([1, 8, 13]), "learn_step": rng.choice([1, 2, 5]), "lr": rng.choice([1e-3, 3e-3])})
+    return o
+
+
+def build_jobs(seed: int, quick: bool):
+    rng = random.Random(seed)
+    float_opts.n = 0
+
+    # ---- scripts
+    jobs = []
+
+    def add(algo, actor, lamb, gamma, ops, arms, opts=None):
+        jobs.append((algo, actor, lamb, gamma, ops, seed + 37 * len(jobs) + 1, arms, dict(opts or {})))
+
+    for algo in ("NeuralUCB", "NeuralTS"):
+        for actor in ("lin", "linb", "mlp", "default"):
+            for lamb in LAMS:
+                jobs.append((algo, actor, lamb, 1.0, SYS, seed + len(jobs), 3, {}))
+    # the second systematic script on every kind of actor / context space (lambda, gamma, arms, options rotate)
+    fams = ["lin", "linb"] + FLOAT_FAMILIES
+    for i, actor in enumerate(fams):
+        for j, algo in enumerate(("NeuralUCB", "NeuralTS")):
+            if quick and actor not in ("lin", "linb", "default") and (i + j + seed) % 2:
+                continue                       # quick: each float family with one of the two algorithms (alternating with the seed)
+            exact = actor in ("lin", "linb")
+            lams = LAMS_EXACT if exact else LAMS_FLOAT
+            lamb = lams[(2 * i + j + seed) % len(lams)]
+            lamb2 = lams[(2 * i + j + seed + 3) % len(lams)]
+            arms = [3, 2, 4, 1][(i + j + seed) % 4] if exact else [3, 6, 2, 1][(i + j + seed) % 4]
+            opts = common_opts(rng)
+            if exact:
+                opts["nin"] = [3, 2][(i + j) % 2]
+            else:
+                opts.update(float_opts(rng, actor, arms))
+            add(algo, actor, lamb, GAMMAS[(i + 3 * j + seed) % len(GAMMAS)], sys2(actor in BOX, lamb2), arms, opts)
+    # every architecture method of every kind of network
+    for i, actor in enumerate(["default", "image", "dict", "mlp", "lin", "simba", "custom", "deep", "vnet", "tuple", "plain", "discrete", "linb"]):
+        for j, algo in enumerate(("NeuralUCB", "NeuralTS")):
+            if quick and ((i + j + seed) % 2 or i >= 6):
+                continue
+            add(algo, actor, LAMS_EXACT[(i + j) % len(LAMS_EXACT)], 1.0, archall(actor, seed), 3, float_opts(rng, actor, 3) if actor not in ("lin", "linb") else {})
+    n_exact, n_float, n_train = (60, 30, 12) if quick else (600, 300, 120)
+    for j in range(n_exact):
+        algo = ("NeuralUCB", "NeuralTS")[j % 2]
+        actor = ("lin", "linb", "lin")[j % 3]
+        arms = rng.choice([2, 3, 3, 1, 4])
+        het = rng.choice([None, None, None, "hp", "hp", 0.5, 2.0, 3.0])
+        ops = gen_script(rng, actor, rng.randint(6, 16), 8 if het is None else 6, arms, hetero=het if het != "hp" else None, lam_hp=(het == "hp"))
+        opts = common_opts(rng)
+        opts["nin"] = rng.choice([3, 3, 2] if actor == "linb" else [3, 3, 2, 1])
+        if het == "hp":
+            opts["lam_hp"] = True
+        lams = LAMS if het == "hp" else LAMS_EXACT
+        add(algo, actor, lams[(j // 2) % len(lams)], rng.choice(GAMMAS), ops, arms, opts)
+    for j in range(n_float):
+        algo = ("NeuralUCB", "NeuralTS")[j % 2]
+        actor = FLOAT_FAMILIES[(j // 2) % len(FLOAT_FAMILIES)]
+        arms = rng.choice([3, 3, 2, 1, 6])
+        het = rng.choice([None, None, None, "hp", 0.5, 3.0, 0.3])
+        ops = gen_script(rng, actor, rng.randint(8, 22), 14, arms, hetero=het if het != "hp" else None, lam_hp=(het == "hp"))
+        opts = common_opts(rng)
+        opts.update(float_opts(rng, actor, arms))
+        if het == "hp":
+            opts["lam_hp"] = True
+        add(algo, actor, LAMS_FLOAT[(j // 4) % len(LAMS_FLOAT)], rng.choice(GAMMAS), ops, arms, opts)
+    # the real training loop (tournament selection, population mutation, checkpoints)
+    for j in range(n_train):
+        algo = ("NeuralUCB", "NeuralTS")[j % 2]
+        exact = (j // 2) % 2 == 0
+        actor = ("lin", "linb")[(j // 4) % 2] if exact else ("mlp", "default", "vnet", "custom", "plain", "simba")[(j // 4) % 6]
+        arms = 2 if actor == "default" else rng.choice([2, 3])
+        opts = {"batch_size": rng.choice([1, 2, 3]), "learn_step": rng.choice([1, 2])}
+        if not exact and actor != "default":
+            opts["nobs"] = 2 * arms
+        if rng.random() < 0.3:
+            opts["lam_hp"] = True
+        lams = LAMS if (exact or opts.get("lam_hp")) else LAMS_FLOAT
+        tp = train_params(rng, j)
+        if exact:
+            tp["episode_steps"] = min(tp["episode_steps"], 3 if tp["gens"] == 1 else 2)      # <= 6 decisions in any lineage
+        add(algo, actor, lams[j % len(lams)], rng.choice(GAMMAS), [("train", tp)], arms, opts)
+    return jobs
 
 
 def run(ctx):
     from ..drive import bandit
 
     quick = ctx.quick
-    rng = random.Random(ctx.seed)
-
-    # ---- scripts
-    jobs = []
-    for algo in ("NeuralUCB", "NeuralTS"):
-        for actor in ("lin", "linb", "mlp", "default"):
-            for lamb in LAMS:
-                jobs.append((algo, actor, lamb, 1.0, SYS, ctx.seed + len(jobs), 3))
-    n_exact, n_float = (60, 30) if quick else (600, 240)
-    for j in range(n_exact):
-        algo = ("NeuralUCB", "NeuralTS")[j % 2]
-        actor = ("lin", "linb", "lin")[j % 3]
-        arms = rng.choice([2, 3, 3])
-        ops = gen_script(rng, actor, rng.randint(6, 16), 8, arms)
-        jobs.append((algo, actor, LAMS[(j // 2) % 3], rng.choice([0.5, 1.0, 2.0]), ops, ctx.seed + 1000 + j, arms))
-    for j in range(n_float):
-        algo = ("NeuralUCB", "NeuralTS")[j % 2]
-        actor = ("mlp", "default")[(j // 2) % 2]
-        ops = gen_script(rng, actor, rng.randint(8, 22), 14, 3)
-        jobs.append((algo, actor, LAMS[(j // 4) % 3], rng.choice([0.5, 1.0, 2.0]), ops, ctx.seed + 5000 + j, 3))
+    jobs = build_jobs(ctx.seed, quick)
     with ProcessPoolExecutor(max_workers=12) as ex:
         futs = [ex.submit(bandit.run_job, j) for j in jobs]          # real executions run while TLC model-checks
 
         # ---- M1
         # one TLC worker: strict breadth-first order, so that every state is first reached with its smallest operation count
         # (the view hides the bounded counter `nops`; several workers would cut successors of states found first on longer paths)
-        r = ctx.mc("Bandit_MC", "Bandit_MCq.cfg" if quick else "Bandit_MC.cfg", coverage=False, timeout=3000, workers=1)
+        r = ctx.mc("Bandit_MC", "Bandit_MCq.cfg" if quick else "Bandit_MC.cfg", coverage=False, timeout=6000, workers=1)
         if r.ok and r.distinct < 10000:
             raise Vacuous(f"kernel model explored only {r.distinct} states")
-        ctx.mc("Bandit_MC", "Bandit_MCpq.cfg" if quick else "Bandit_MCp.cfg", workers=1, timeout=3000,
-               must_cover=["CreateAny|Create", "DecideAny|Decide", "LearnAny|Learn", "MutateAny|Mutate", "CloneAny|Clone", "SaveAny|Save",
+        ctx.mc("Bandit_MC", "Bandit_MCpq.cfg" if quick else "Bandit_MCp.cfg", workers=1, timeout=6000,
+               must_cover=["CreateAny|Create", "DecideAny|Decide", "LearnAny|Learn", "TestAny|Test", "MutateAny|Mutate", "CloneAny|Clone", "SaveAny|Save",
                            "LoadNewAny|LoadNew", "LoadIntoAny|LoadInto"])
+        if not quick:
+            # heterogeneous population: every agent / checkpoint has its own lambda, hyper-parameter mutations move it
+            ctx.mc("Bandit_MC", "Bandit_MCh.cfg", workers=1, timeout=6000,
+                   must_cover=["CreateAny|Create", "DecideAny|Decide", "MutateAny|Mutate", "CloneAny|Clone", "LoadNewAny|LoadNew", "LoadIntoAny|LoadInto"])
         results = [f.result() for f in futs]
 
     exact, flt = [], []
-    protocol, resized, decisions, events = {}, 0, 0, 0
+    protocol, stats, resized, decisions, events, lamch, crashed = {}, {}, 0, 0, 0, 0, {}
     for job, res in zip(jobs, results):
         (exact if res["kind"] == "exact" else flt).extend(res["traces"])
-        ctx.case((job[0], job[1], job[2], job[3], str(job[4]), job[6]))
+        ctx.case((job[0], job[1], job[2], job[3], str(job[4]), job[6], json.dumps(job[7], sort_keys=True)))
         resized += res["resized"]
         decisions += res["decisions"]
         events += res["nev"]
+        lamch += res["lam_changes"]
+        train = job[4][0][0] == "train"
+        for k, n in res["stats"].items():
+            k = ("train:" + k) if train else k
+            stats[k] = stats.get(k, 0) + n
+        fam = ("train:" if train else "") + job[1]
+        stats["family:" + fam] = stats.get("family:" + fam, 0) + 1
+        if res["crashed"]:
+            crashed[res["crashed"][:120]] = crashed.get(res["crashed"][:120], 0) + 1
         for k, d in res["protocol"].items():
             for w, n in d.items():
                 protocol.setdefault(k, {}).setdefault(w, 0)
                 protocol[k][w] += n
     if resized == 0 or decisions == 0:
         raise Vacuous("no script changed the size of an output layer / took a decision")
+    need = ["test", "decide:masked", "mutate:arch:direct", "mutate:param:direct", "mutate:act:direct", "mutate:hp:pre", "clone", "loadinto", "loadnew",
+            "train:decide", "train:learn", "train:test", "train:clone", "train:mutate:arch", "train:mutate:none", "train:save", "train:loadnew",
+            "archmethod:head_net.add_node", "archmethod:head_net.remove_node", "archmethod:head_net.add_layer", "archmethod:head_net.remove_layer",
+            "archmethod:add_latent_node", "archmethod:remove_latent_node", "archmethod:encoder.add_node", "archmethod:encoder.remove_node",
+            "archmethod:encoder.add_channel", "archmethod:encoder.change_kernel"]
+    missing = [k for k in need if not stats.get(k)]
+    if (missing or lamch == 0) and not crashed:       # (an execution that stops at a raising operation is reported below, not a vacuity)
+        raise Vacuous(f"operations never executed by any script: {missing}; lambda changes: {lamch}; crashes: {crashed}")
     ctx.extra["observed_protocol"] = protocol
+    ctx.extra["operation_counts"] = dict(sorted(stats.items()))
     ctx.extra["output_layer_resizes"] = resized
+    ctx.extra["lambda_changes"] = lamch
     ctx.extra["decisions"] = decisions
     ctx.extra["operations"] = events
     ex0 = next(t for t in exact if t["cfg"]["lam"] == [1, 1])
-    ctx.sample({"exact_trace": {"cfg": ex0["cfg"], "ev": ex0["ev"][:3]}})
+    ctx.sample({"exact_trace": {"cfg": ex0["cfg"], "ev": [{**e, "post": e["post"][:3]} for e in ex0["ev"][:3]]}})
     fl0 = next(t for t in flt if t["cfg"]["lam"] == [1, 1])
-    ctx.sample({"inexact_trace": {"cfg": fl0["cfg"], "ev": fl0["ev"][:3]}})
-    ctx.validate("Bandit_Trace", EXACT_CFG, exact, sig=sig("exact"), what=what, chunk=120)
-    ctx.validate("Banditx_Trace", FLOAT_CFG, flt, sig=sig("float"), what=what, chunk=200)
+    ctx.sample({"inexact_trace": {"cfg": fl0["cfg"], "ev": [{**e, "post": e["post"][:3]} for e in fl0["ev"][:3]]}})
+    ctx.validate("Bandit_Trace", EXACT_CFG, exact, sig=sig("exact"), what=what, chunk=150)
+    ctx.validate("Banditx_Trace", FLOAT_CFG, flt, sig=sig("float"), what=what, chunk=250)
 
     ctx.assume("the gradient feature of an arm is the gradient of the actor's output for that arm w.r.t. the trainable parameters of "
                "actor.get_output_dense(), flattened in parameter order and divided by sqrt(out_features) (the algorithm's own definition); "
@@ -204,9 +395,16 @@ def run(ctx):
     ctx.assume("mode 'relative': when the real agent starts from c I with c != 1/lambda the strict trace is rejected at its first event and "
                "the same execution is validated again against lambda' = 1/c, so that the rank-one update and the protocol are still checked")
     ctx.assume("the chosen arm is observed, not predicted (UCB scores involve sqrt, TS samples); legality of the arm under the mask is not part of C19")
-    ctx.assume("an operation that rebuilds an agent (mutation, clone, load) may carry the matrix (if its size still matches the output layer) or "
-               "re-initialise it; learn steps and saves must leave it unchanged")
-    return "model_checking", ("case = (algorithm, actor kind, lambda, gamma, operation script with context seeds and masks, number of arms); "
+    ctx.assume("an operation that rebuilds an agent (mutation, clone, load) may carry the matrix (if its size still matches the output layer and "
+               "lambda is unchanged) or re-initialise it; learn steps, evaluation runs and saves must leave it unchanged")
+    ctx.assume("lambda of an agent = its `lamb` attribute; a clone / reloaded agent has its source's, only a hyper-parameter mutation applied "
+               "through Mutations.mutation (lamb listed in hp_config) changes it; the bare rl_hyperparam_mutation on such an agent is not exercised")
+    ctx.assume("action masks are numpy arrays (int / bool / float, shape (arms,) or (arms,1)) as documented; a Python list raises TypeError before the "
+               "matrix is touched and is not exercised")
+    ctx.assume("train_bandits runs: the agents' get_action / learn / test / clone / save_checkpoint and Mutations.mutation are wrapped by the driver "
+               "to record events; members mutated later in one Mutations.mutation call are shown with their state before the call")
+    return "model_checking", ("case = (algorithm, actor kind, lambda, gamma, operation script with context seeds and masks | train_bandits parameters, "
+                              "number of arms, constructor options); "
                               "distinct = distinct tuples; all are non-trivial (every script creates an agent and ends with a decision on every live agent)"), False
 
 
@@ -223,15 +421,16 @@ def replay(path):
         return 1
     cfg = r["trace"]["cfg"]
     ops = [tuple(o) for o in json.loads(cfg["ops"])]
-    res = bandit.run_job((cfg["algo"], cfg["actor"], cfg["lamb"], cfg["gamma"], ops, cfg["seed"], cfg.get("arms", 3)))
+    opts = json.loads(cfg.get("opts", "{}"))
+    res = bandit.run_job((cfg["algo"], cfg["actor"], cfg["lamb"], cfg["gamma"], ops, cfg["seed"], cfg.get("arms", 3), opts))
     t = next((x for x in res["traces"] if x["cfg"]["mode"] == cfg["mode"]), res["traces"][0])
-    print(f"{cfg['algo']} actor={cfg['actor']} lamb={cfg['lamb']} gamma={cfg['gamma']} mode={t['cfg']['mode']} spec lambda={t['cfg']['lam']}")
+    print(f"{cfg['algo']} actor={cfg['actor']} lamb={cfg['lamb']} gamma={cfg['gamma']} arms={cfg.get('arms')} opts={opts} mode={t['cfg']['mode']} spec lambda={t['cfg']['lam']}")
     for i, e in enumerate(t["ev"], start=1):
-        extra = {k: e[k] for k in ("kind", "feats", "arm", "mask") if k in e and e["op"] in ("decide", "mutate")}
+        extra = {k: e[k] for k in ("kind", "via", "want", "mut", "feats", "arm", "mask") if k in e and e["op"] in ("decide", "mutate")}
         print(f"-- event {i}: {e['op']} a={e['a']} c={e['c']} f={e['f']} {extra} exc={e['exc']!r}")
         for s, p in enumerate(e["post"], start=1):
             if not p.get("nil"):
-                print(f"     slot {s}: " + ", ".join(f"{k}={p[k]}" for k in ("layer", "dim", "S", "hist", "res", "resid", "isinit", "eqsrc") if k in p))
+                print(f"     slot {s}: " + ", ".join(f"{k}={p[k]}" for k in ("layer", "dim", "lam", "S", "hist", "res", "resid", "isinit", "eqsrc") if k in p))
     exact = res["kind"] == "exact"
     v = trace_mod.validate("Bandit_Trace" if exact else "Banditx_Trace", EXACT_CFG if exact else FLOAT_CFG, [t])[0]
     print("TLC verdict on the re-execution:", "ACCEPTED" if v.accepted else f"REJECTED at event {v.step}: {v.clauses or v.invariant}")
